@@ -128,6 +128,33 @@ def exact_vs_float(ctx, recs):
         ctx.harness_errors.append("coqc failed on %s: %s" % (e[0], e[2][-600:]))
 
 
+def same_object_modes(ctx, recs):
+    """'the reported probabilities are the same whether or not pruning was requested' - also when both modes are
+    requested from ONE StochasticGame object, in either order"""
+    fresh = {}
+    for r in recs:
+        if r.ok and r.op == "solve":
+            fresh[(sc.game_key(r.game), r.prune)] = r.out[3]
+    done, jobs, meta = set(), [], []
+    for r in recs:
+        key = sc.game_key(r.game)
+        if r.op != "solve" or key in done or (key, False) not in fresh or len(jobs) >= (80 if ctx.quick else 800):
+            continue
+        done.add(key)
+        for steps in ([[True, True], [False, False]], [[False, True], [True, False]]):
+            jobs.append(dict(op="solve_seq", game=enc(r.game), steps=steps, limit=20))
+            meta.append((r, steps))
+    res = impl.run_cases(jobs, tag="c01s")
+    for (r, steps), out in zip(meta, res):
+        ctx.evaluations += 1
+        ctx.count("same-object sequences")
+        want = fresh[(sc.game_key(r.game), False)]
+        for (prune, _), st in zip(steps, out.get("steps", [])):
+            if "ok" in st and dec(st["ok"])[3] != want:
+                ctx.violation("probabilities of a %s solve through a re-used StochasticGame object differ from a fresh solve"
+                              % ("pruned" if prune else "unpruned"), dict(r.inp(), steps=steps), probs=dec(st["ok"])[3], fresh=want)
+
+
 def run(ctx):
     n = 160 if ctx.quick else 2500
     games = sc.standard_games(ctx, n, 3, 9 if ctx.quick else 10)
@@ -135,6 +162,7 @@ def run(ctx):
     sc.correspondence(ctx, recs, "cmp_probs", "c01")
     check_values(ctx, recs)
     exact_vs_float(ctx, recs)
+    same_object_modes(ctx, recs)
     known_k1(ctx)
 
 
